@@ -46,16 +46,16 @@ type Run struct {
 	exhaustive  bool
 	capsHit     []string
 
-	known      map[string]knownEntry
-	knownSeen  map[string]int64
-	violations map[string]int64
-	violOrder  []string
-	harnessErr []string
-	replay     json.RawMessage
-	finished   bool
-	resumeAfter *int64
+	known                        map[string]knownEntry
+	knownSeen                    map[string]int64
+	violations                   map[string]int64
+	violOrder                    []string
+	harnessErr                   []string
+	replay                       json.RawMessage
+	finished                     bool
+	resumeAfter                  *int64
 	partsDir, replayDir, attempt string
-	quietScenarios bool
+	quietScenarios               bool
 }
 
 type knownEntry struct {
@@ -99,7 +99,7 @@ func Start(prop, part string) *Run {
 		known:      map[string]knownEntry{},
 		knownSeen:  map[string]int64{},
 		violations: map[string]int64{},
-		partsDir: os.Getenv("VERIF_PARTS_DIR"), replayDir: os.Getenv("VERIF_REPLAY_DIR"), attempt: os.Getenv("VERIF_ATTEMPT"),
+		partsDir:   os.Getenv("VERIF_PARTS_DIR"), replayDir: os.Getenv("VERIF_REPLAY_DIR"), attempt: os.Getenv("VERIF_ATTEMPT"),
 	}
 	if p := os.Getenv("VERIF_KNOWN"); p != "" {
 		if f, err := os.Open(p); err == nil {
@@ -155,9 +155,9 @@ func (r *Run) Replay() json.RawMessage {
 // another part; then this part has nothing to do).
 func (r *Run) Replaying() bool { return r.replay != nil }
 
-func (r *Run) Rule(s string)          { r.rule = s }
-func (r *Run) Assume(s string)        { r.mu.Lock(); r.assumptions = append(r.assumptions, s); r.mu.Unlock() }
-func (r *Run) Bound(k string, v any)  { r.mu.Lock(); r.bounds[k] = v; r.mu.Unlock() }
+func (r *Run) Rule(s string)           { r.rule = s }
+func (r *Run) Assume(s string)         { r.mu.Lock(); r.assumptions = append(r.assumptions, s); r.mu.Unlock() }
+func (r *Run) Bound(k string, v any)   { r.mu.Lock(); r.bounds[k] = v; r.mu.Unlock() }
 func (r *Run) Count(k string, n int64) { r.mu.Lock(); r.counters[k] += n; r.mu.Unlock() }
 func (r *Run) MaxCount(k string, n int64) {
 	r.mu.Lock()
@@ -179,7 +179,7 @@ func (r *Run) Cap(what string) {
 }
 
 // Eval counts one evaluated case / execution.
-func (r *Run) Eval() { r.mu.Lock(); r.evals++; r.mu.Unlock() }
+func (r *Run) Eval()         { r.mu.Lock(); r.evals++; r.mu.Unlock() }
 func (r *Run) Evals(n int64) { r.mu.Lock(); r.evals += n; r.mu.Unlock() }
 
 func h64(s string) uint64 { h := fnv.New64a(); h.Write([]byte(s)); return h.Sum64() }
